@@ -39,6 +39,7 @@ type xmpReader struct {
 	r     *bufio.Reader
 	a     bool
 	depth int
+	eof   bool // the underlying reader reported io.EOF
 }
 
 func newXMPReader(r io.Reader) xmpReader {
@@ -88,7 +89,15 @@ func (br *xmpReader) hasAttribute() bool {
 }
 
 func (br *xmpReader) Peek(n int) (buf []byte, err error) {
-	if buf, err = br.r.Peek(n); err == io.EOF {
+	if br.eof && n > br.r.Buffered() && n <= br.r.Size() {
+		// the source has ended: what is buffered is all there is, asking it again (a look-ahead
+		// that widens its window step by step would, once per step) yields nothing new
+		buf, _ = br.r.Peek(br.r.Buffered())
+		err = io.EOF
+	} else if buf, err = br.r.Peek(n); err == io.EOF {
+		br.eof = true
+	}
+	if err == io.EOF {
 		if len(buf) > 4 {
 			return buf, nil
 		}
